@@ -181,6 +181,50 @@ def case_variants(s: str) -> bool:
     return lo.base_tag == t.base_tag and up.short_base_tag == t.short_base_tag and sw.base_tag == t.base_tag
 
 
+def _variant(s, k):
+    if k == 1:
+        return s.lower()
+    if k == 2:
+        return s.upper()
+    if k == 3:
+        return s.swapcase()
+    return s
+
+
+def _agrees(t, text):
+    """t (built from `text`) shows exactly what the reference says about `text` (names, not object identity)"""
+    p, n, r = MR.resolve_ns(text, [""])
+    if n is None:
+        return t._schema_entry is None and t.long_tag == text and t.short_tag == text
+    if t._schema_entry is None:
+        return False
+    return (t.long_tag == MR.long_form(n, r, p) and t.short_tag == MR.short_form(n, r, p)
+            and t._extension_value == r and t.base_tag == MR.base_long(n))
+
+
+def lookup_history(s: str, k1: int, k2: int) -> bool:
+    """
+    pre: 1 <= len(s) <= R.N(3)
+    pre: _cell(s)
+    pre: R.ascii_printable(s)
+    pre: 0 <= k1 <= 3 and 0 <= k2 <= 3
+    pre: not R.known("C03-hash-term", _kf_hash_term(s, [""]))
+    post: _
+    """
+    # A history of lookups on ONE schema object (a private copy, so that paths cannot influence each other):
+    # spelling v1, then another letter-case spelling v2 of the same tag, then v1 again.  Every lookup must give
+    # what the reference says about ITS OWN text - in particular its own suffix verbatim - whatever was asked before.
+    from vp import mini as _mini
+    sch = _mini.fresh()
+    v1, v2 = _variant(s, k1), _variant(s, k2)
+    a = HedTag(v1, sch)
+    b = HedTag(v2, sch)
+    c = HedTag(v1, sch)
+    if not (_agrees(a, v1) and _agrees(b, v2) and _agrees(c, v1)):
+        return False
+    return a._schema_entry is b._schema_entry and a._schema_entry is c._schema_entry
+
+
 def _ns_k(k):
     c = R.env_int("VP_K")
     return 0 <= k <= 1 and (c is None or k == c)
@@ -308,6 +352,15 @@ HARNESSES = [
              "unidentified), with the remainder transformed the same way and the same base forms",
         oracle="three further runs of the real code on case variants",
         stubs=_STUBS + ["chx_case: ASCII-exact upper()/swapcase() model for CrossHair strings"], outside=_OUT),
+    R.H("lookup_history", _T_FIND + _T_TAG,
+        quick=R.tier(cells=_cells(3, 3), env={"VP_N": 3}, timeout=600, bound=(_MINI_B % 3) + "; three lookups on one "
+                     "private schema copy: spelling k1, spelling k2, spelling k1 again (k: as written/lower/upper/swapcase)"),
+        thorough=R.tier(cells=_cells(4, 3), env={"VP_N": 4}, timeout=1800, path_timeout=60, bound=_MINI_B % 4),
+        what="the result of a lookup does not depend on earlier lookups on the same schema object: each spelling gets "
+             "the node, canonical forms and its OWN verbatim suffix that the reference gives for its own text",
+        oracle="models/mini_rules.py per lookup", stubs=["fresh deep copy of the mini schema per call (path isolation)",
+                                                       "chx / chx_case ASCII case accelerators"],
+        outside="longer histories; bundled vocabularies"),
     R.H("namespace_variants", _T_FIND + _T_TAG + _T_GROUP,
         quick=R.tier(cells=R.product_cells(R.int_cells("VP_K", 0, 1), _cells(2, 9) + _X_Y), env={"VP_N": 2},
                      timeout=600, bound=(_NS_B % 2) + _X_Y_B),
